@@ -4,6 +4,7 @@ Driver glue for C21 (encoding: `Http/ChannelWire.lean`).
   `C21 run <script> <ops>` → the C18 observables followed by ` lost=<0|1> log=<event>,…|none`
       events in order: `R<k>@<w>` requestReceived of request k after `w` bytes were written, `D<k>@<w>` requestDone,
       `N<k>:<n>:<1|0>` n notifyFinish Deferreds of request k fired with None (1) / a failure (0)
+  ops may contain `x` (the application calls `loseConnection()` on the request it holds), script modes 4/5 (`render` raises)
 -/
 namespace Twisted.Drv.C21
 open Twisted.Http.Channel Twisted.Http.ChannelWire
